@@ -138,6 +138,12 @@ def check(prop, tier, seed, replay=None):
         else:
             cfg = PLAN[tier]
             fns = sorted(FNS)
+            # development aid (mutation experiments on a loaded machine): VERIF_C08_FNS=23,26 restricts the callables;
+            # the run is then marked partial and can never be mistaken for a full check (exit 2 instead of 0)
+            only = os.environ.get("VERIF_C08_FNS")
+            if only:
+                fns = sorted(int(x) for x in only.split(","))
+            V.version_include()   # generate version.hpp once before the parallel build (the generator is not thread-safe)
             exes = V.build_many(harness_jobs(fns))
 
             def gen(i_exe):
@@ -157,7 +163,8 @@ def check(prop, tier, seed, replay=None):
         calls = {k: v for k, v in oc.cov.items() if k.startswith("call|")}
         skipped = sum(v for k, v in oc.cov.items() if k.startswith("skipped|"))
         judged = sum(v for k, v in oc.cov.items() if k.startswith("clause|") and (".jac" in k or ".hess" in k))
-        if not replay:
+        partial = bool(os.environ.get("VERIF_C08_FNS")) and not replay
+        if not replay and not partial:
             missing = [c for c in REQUIRED_CELLS if oc.cov.get(c, 0) == 0]
             if missing:
                 raise V.ToolFailure(f"vacuity: clause cells never exercised: {missing}")
@@ -179,6 +186,8 @@ def check(prop, tier, seed, replay=None):
                                   "argument_types": ["SO3d", "SE2d", "SE3d", "Bundle<SO3d,Vector3d>", "Vector2d", "Vector3d",
                                                      "VectorXd", "double", "std::vector<SO3d>"],
                                   "checker_cmd": "java tlc2.TLC -config TraceDiff.cfg TraceDiff.tla (one process per trace chunk)"})
+        if partial and rc == 0:
+            raise V.ToolFailure("partial run (VERIF_C08_FNS set): no violation among the selected callables; not a verdict for C08")
         return rc
     finally:
         shutil.rmtree(workdir, ignore_errors=True)
